@@ -54,8 +54,8 @@ variable {σ : Type} (E : Env σ)
 @[grind =] theorem amountSecondSign_dy (sg : Bytes) (st : PState σ) : (amountSecondSign E sg st).2.defaultYear = st.defaultYear := by
   fun_cases amountSecondSign E sg st <;> (try simp +zetaDelta only [] at *) <;> (first | grind | (simp_all; done) | (simp_all; grind))
 
-@[grind =] theorem amountRightCommodity_dy (c : Commodity) (st : PState σ) : (amountRightCommodity E c st).2.defaultYear = st.defaultYear := by
-  fun_cases amountRightCommodity E c st <;> (try simp +zetaDelta only [] at *) <;> (first | grind | (simp_all; done) | (simp_all; grind))
+@[grind =] theorem amountRightCommodity_dy (c : Commodity) (stop : Pos) (st : PState σ) : (amountRightCommodity E c stop st).2.defaultYear = st.defaultYear := by
+  fun_cases amountRightCommodity E c stop st <;> (try simp +zetaDelta only [] at *) <;> (first | grind | (simp_all; done) | (simp_all; grind))
 
 @[grind =] theorem amountNumber_dy (sp : Pos) (sg : Bytes) (c : Commodity) (sb : Bool) (st : PState σ) : (amountNumber E sp sg c sb st).2.defaultYear = st.defaultYear := by
   fun_cases amountNumber E sp sg c sb st <;> (try simp +zetaDelta only [] at *) <;> (first | grind | (simp_all; done) | (simp_all; grind))
